@@ -274,9 +274,10 @@ def fork_flow(flow: str, db: Path, ov: str, k: int):
                 changes.append(cnt[0] + 1)
             os.write(w, json.dumps({"lines": cnt[0], "changes": changes}).encode())
             os._exit(0)
-        except BaseException as e:  # noqa
+        except BaseException as e:  # noqa  (the flow raised: the process dies here, no cleanup)
             try:
-                os.write(w, ("ERR " + repr(e)).encode())
+                sys.settrace(None)
+                os.write(w, json.dumps({"lines": cnt[0], "changes": changes, "error": repr(e)[:300]}).encode())
             finally:
                 os._exit(3)
     os.close(w)
@@ -374,15 +375,14 @@ def exec_tasks(chunk):
             shutil.rmtree(work, ignore_errors=True)
             shutil.copytree(st["dir"], work)
             rc, msg = fork_flow(flow, work / DBNAME, ov[gen], k)
-            r = {"sid": sid, "flow": flow, "k": k, "rc": rc, "msg": msg if rc == 3 else ""}
-            if rc not in (0, 137):
-                r["obs"] = observe(work, wd / "s")
-                r["reopen"] = {"content": [TORN], "integrity": [], "error": "flow failed: " + msg, "npages": -1}
-                r["robs"] = r["obs"]
-                res.append(r)
-                continue
-            if k <= 0:
-                r.update(json.loads(msg))
+            r = {"sid": sid, "flow": flow, "k": k, "rc": rc, "msg": ""}
+            if rc not in (0, 3, 137):
+                raise RuntimeError(f"child running flow {flow} ended with status {rc}")
+            if rc == 3 or k <= 0:
+                info = json.loads(msg)
+                r["msg"] = info.get("error", "")
+                if k <= 0:
+                    r.update(lines=info["lines"], changes=info["changes"])
             h = dirhash(work)
             if st.get("hash") == h and st.get("result"):
                 cache[h] = st["result"]
@@ -423,8 +423,6 @@ def start_result(root: Path, starts, ov, sid) -> None:
 def count_lines(root: Path, starts, ov, sid, flow, gen):
     _G.update(root=str(root), starts=starts, ov=ov)
     r = exec_tasks([(sid, flow, gen, 0, None)])[0]
-    if r["rc"] != 0:
-        raise RuntimeError(f"flow {flow} does not run to completion from start {sid}: {r}")
     return r["lines"], r["changes"]
 
 
@@ -521,7 +519,7 @@ def validate_traces(o: Outcome, traces: list, variant: str, name: str):
 def make_trace(tid, prefix_runs, sw: Sweep):
     seq, idx = sw.seq()
     last_k = max(sw.res)
-    killed = sw.res[last_k]["rc"] == 137
+    killed = sw.res[last_k]["rc"] != 0  # killed, or died from an exception of the flow
     return {"tid": tid, "runs": prefix_runs + [{"flow": sw.flow, "obs": seq, "killed": bool(killed)}]}, idx
 
 
@@ -605,7 +603,7 @@ def real_sweeps(thorough: bool, o: Outcome | None = None, flows1=None):
             for k in sorted(sw.res):
                 ok_ = okey(sw.res[k]["obs"])
                 key = (sw.flow, ok_) if thorough else ("*", ok_)
-                if key not in reps and ok_ != base_key and sw.res[k]["rc"] != 3:
+                if key not in reps and ok_ != base_key:
                     reps[key] = (sw, k, idx[k], seq)
         keep_tasks = []
         for n, (key, (sw, k, oi, seq)) in enumerate(sorted(reps.items(), key=lambda kv: (kv[1][0].flow, kv[1][1])), start=1):
@@ -618,18 +616,13 @@ def real_sweeps(thorough: bool, o: Outcome | None = None, flows1=None):
             starts[n] = {
                 "dir": str(d), "hash": dirhash(d), "result": r,
                 "chain": [(sw.flow, okey(r["obs"]))],
-                "runs": [{"flow": sw.flow, "obs": seq[:oi], "killed": r["rc"] == 137}],
+                "runs": [{"flow": sw.flow, "obs": seq[:oi], "killed": r["rc"] != 0}],
             }
         flows2 = flows if thorough else ["BOC", "C", "OC"]
         pairs = [(n, f) for n in sorted(x for x in starts if x != 0) for f in flows2]
         counts = pmap(exec_tasks, [(n, f, GENS[1], 0, None) for n, f in pairs])
         sweeps2 = []
         for (n, f), c in zip(pairs, counts):
-            if c["rc"] != 0:
-                if o is not None:
-                    o.violation({"level": 2, "flows": starts[n]["chain"][0][0] + "+" + f, "start": starts[n]["runs"], "flow": f},
-                                "the flow fails on the state left by the first run: " + c["msg"], cls="flowfail")
-                continue
             sweeps2.append(Sweep(n, f, GENS[1], c["lines"], c["changes"]))
         run_sweeps(root, starts, ov, sweeps2, 1 if thorough else 24)
         for st in starts.values():
@@ -709,9 +702,8 @@ def run(tier: str) -> int:
             reached.add(chain_key)
             case = {"level": len(chain_key), "flows": "+".join([c[0] for c in chain_prefix] + [sw.flow]), "start": starts[sw.sid]["runs"],
                     "flow": sw.flow, "kill_line_index": k, "of": sw.K, "files": r["obs"]}
-            if r["rc"] == 3:
-                o.violation(case, "the flow itself failed: " + r["msg"], cls="flowfail")
-                continue
+            if r["rc"] == 3:  # the flow raised: judged like a kill at that point
+                o.extra.setdefault("flows_that_raised", {}).setdefault(case["flows"], r["msg"])
             cands = list(preds.get((tid, idx[k]), []))
             if idx[k] == last_oi:  # last file state: the process may have finished
                 cands += preds.get((tid, "done"), [])
